@@ -38,7 +38,7 @@ ASSUMPTIONS = [
     "verovio is not installed: the lxml branch of the MEI reader is the one that runs",
 ]
 COMPONENTS = {"real": ["partitura.io.importkern", "partitura.io.exportkern", "partitura.io.importmei", "partitura.io.exportmei", "partitura.io.load_score", "numpy loadtxt/genfromtxt/savetxt", "lxml"], "stub": ["raw file layer (SimFS)", "HTTP client (fake urlopen)", "independent kern and MEI encoders (model/ref_kern.py, model/ref_mei.py)"]}
-PROBES = ("kern_spine_split_fallback_reader", "kern_spine_split_with_notes", "kern_same_part", "mei_dur_ppq", "kern_multi_spine", "kern_ties", "kern_tuplets", "kern_grace", "mei_attr_defs", "mei_child_defs", "mei_no_ppq", "mei_layers", "mei_tuplets", "mei_meter_change", "mei_key_change_with_meter_change", "upper_case_extension", "url_route", "url_short_reads", "read_fault", "write_fault", "export_roundtrip_checked", "rich_export_strict_kern", "rich_export_strict_mei", "rich_export_strict_tuplets")
+PROBES = ("kern_spine_split_fallback_reader", "kern_two_spines_on_one_staff", "kern_spine_split_with_notes", "kern_same_part", "mei_dur_ppq", "kern_multi_spine", "kern_ties", "kern_tuplets", "kern_grace", "mei_attr_defs", "mei_child_defs", "mei_no_ppq", "mei_layers", "mei_tuplets", "mei_meter_change", "mei_key_change_with_meter_change", "upper_case_extension", "url_route", "url_short_reads", "read_fault", "write_fault", "export_roundtrip_checked", "rich_export_strict_kern", "rich_export_strict_mei", "rich_export_strict_tuplets")
 
 
 # ----------------------------------------------------------------------------
@@ -100,7 +100,7 @@ def generate(seed, tier, cfg):
 
 def _knobs(k, rich, ext, route):
     return {
-        "knobs": {"rich": rich, "ext": ext, "route": route, "chunk": k.choice((0, 0, 7, 64)), "style": {"attr_defs": k.random() < 0.5, "beams": False, "ppq": k.random() < 0.5, "mrest": True, "durppq": k.random() < 0.5, "naturals": k.random() < 0.5, "keychg": k.choice((None, None, 2, -3, 0, 5)), "same_part": k.random() < 0.7, "split": [k.randrange(0, 8), k.randrange(0, 8), k.random() < 0.6] if k.random() < 0.45 else None}},
+        "knobs": {"rich": rich, "ext": ext, "route": route, "chunk": k.choice((0, 0, 7, 64)), "style": {"attr_defs": k.random() < 0.5, "beams": False, "ppq": k.random() < 0.5, "mrest": True, "durppq": k.random() < 0.5, "naturals": k.random() < 0.5, "extra_voices": k.random() < 0.5, "keychg": k.choice((None, None, 2, -3, 0, 5)), "same_part": k.random() < 0.7, "split": [k.randrange(0, 8), k.randrange(0, 8), k.random() < 0.6] if k.random() < 0.45 else None}},
     }["knobs"]
 
 
@@ -141,6 +141,20 @@ def loaded_by_staff(score):
             out.setdefault(n.staff, []).append((F(n.start.t, qq), F(0) if grace else F(n.duration_tied, qq), n.step, n.alter or 0, n.octave, grace))
             info.setdefault(n.staff, part)
     return {k: sorted(v, key=repr) for k, v in out.items()}, info
+
+
+def voices_by_note(score, staff):
+    """{(onset_q, step, alter, octave): voice} of the tie-head notes on one staff"""
+    import partitura.score as S
+
+    out = {}
+    for part in score.parts:
+        for n in part.iter_all(S.Note, include_subclasses=False):
+            if n.staff != staff or n.tie_prev is not None:
+                continue
+            qq = int(part.quarter_duration_map(n.start.t))
+            out[(F(n.start.t, qq), n.step, n.alter or 0, n.octave)] = n.voice
+    return out
 
 
 def part_structure(part):
@@ -225,7 +239,7 @@ def execute(case, keep_log=False):
 def run_in(res, fs, asc, kn, fmt, path, faults, shape):
     if fmt == "kern":
         same_part = bool(kn["style"].get("same_part")) and len(asc["parts"]) == 1
-        text, exp = ref_kern.encode(asc, same_part=same_part, split=kn["style"].get("split"))
+        text, exp = ref_kern.encode(asc, same_part=same_part, split=kn["style"].get("split"), extra_voices=bool(kn["style"].get("extra_voices")))
         if text and exp.get("split"):
             res.probe("kern_spine_split_fallback_reader")
             if exp["split"] == "notes":
@@ -289,21 +303,53 @@ def run_in(res, fs, asc, kn, fmt, path, faults, shape):
         return
     got, info = loaded_by_staff(score)
     if fmt == "kern":
+        # several spines may share a staff (one spine per voice): their notes are compared together, and each spine is
+        # a voice of its own
+        by_staff = {}
         for sp in exp["spines"]:
+            by_staff.setdefault(sp["staff"] + 2 * sp["part"], []).append(sp)
+        merged = []
+        for stn_, sps in sorted(by_staff.items()):
+            m0 = dict(sps[0])
+            m0["notes"] = [x for sp_ in sps for x in sp_["notes"]]
+            m0["_spines"] = sps
+            merged.append(m0)
+        for sp in merged:
             stn = sp["staff"] + 2 * sp["part"]
-            want = join_kern(sp["notes"])
+            want = sorted(x for sp_ in sp["_spines"] for x in join_kern(sp_["notes"]))
+            want = sorted(want, key=repr)
             have = got.get(stn, [])
             if want != have:
                 miss = [x for x in want if x not in have][:3]
                 extra = [x for x in have if x not in want][:3]
                 # a tie whose start or end is a member of a chord
-                onsets = {}
-                for q, d, stp, alt, octv, grace, tp, tn in sp["notes"]:
-                    if not grace:
-                        onsets.setdefault(q, []).append(tp or tn)
-                chord_tie = any(len(v) > 1 and any(v) for v in onsets.values())
+                chord_tie = False
+                for sp_ in sp["_spines"]:
+                    onsets = {}
+                    for q, d, stp, alt, octv, grace, tp, tn in sp_["notes"]:
+                        if not grace:
+                            onsets.setdefault(q, []).append(tp or tn)
+                    chord_tie = chord_tie or any(len(v) > 1 and any(v) for v in onsets.values())
                 res.violation("N1-notes", "load", "kern spine (staff %d): loaded notes differ from what the notation denotes: missing %s, unexpected %s" % (stn, fmtn(miss), fmtn(extra)), site=("chord-tie:" if chord_tie else "") + _classify(miss, extra))
                 return
+            if len(sp["_spines"]) > 1:
+                # spines are mapped to voices as encoded: the notes of one spine share a voice no other spine uses
+                res.probe("kern_two_spines_on_one_staff")
+                vmap = voices_by_note(score, stn)
+                keycount = {}
+                for sp_ in sp["_spines"]:
+                    for q, d, stp, alt, octv, grace, tp, tn in sp_["notes"]:
+                        keycount[(q, stp, alt, octv)] = keycount.get((q, stp, alt, octv), 0) + 1
+                seen_v = {}
+                for si, sp_ in enumerate(sp["_spines"]):
+                    # (a pitch that sounds at one onset in both spines, or as grace and main note, cannot be attributed)
+                    vs = set(vmap.get((q, stp, alt, octv)) for q, d, stp, alt, octv, grace, tp, tn in sp_["notes"] if not grace and not tp and keycount[(q, stp, alt, octv)] == 1)
+                    vs.discard(None)
+                    for v_ in vs:
+                        if v_ in seen_v and seen_v[v_] != si:
+                            res.violation("N3-voices", "load", "kern staff %d: the notes of two different spines were given the same voice %s" % (stn, v_), site="spines-share-voice")
+                            return
+                        seen_v[v_] = si
             part = info.get(stn)
             if part is not None:
                 ps = part_structure(part)
